@@ -538,6 +538,60 @@ def r12_iter_flatten(text, fired):
     return text
 
 
+def r18_await(text, fired):
+    """R18 (opt-in per Fn: `rules=('R18',)`), body part: `EXPR.await` -> `EXPR`.
+
+    Together with r18_sig (`async fn` -> `fn`) this reads an async function as the sequential function that runs each
+    awaited callee to completion at the point of the `.await`.  That is sound for the sequential, Hoare-style
+    contracts used here: an `.await` is a call that may SUSPEND, but it has no effect of its own - everything that
+    happens is the effect of the awaited callee, which keeps its contract (the callee's model, e.g. an `async fn` of the
+    generated AsyncFileSystem model, is declared as a plain fn with that contract).
+    What is DROPPED: the suspension points themselves, i.e. every interleaving with other tasks that could run while
+    this one is suspended, cancellation (a future dropped at an await point never runs the rest of the body), and the
+    `Send`/lifetime obligations of the generated future.  Concurrency is out of scope of the contracts (as for the sync
+    path, where handlers also run on several threads).
+    Only the postfix form `.await` on masked text is rewritten (never inside strings/comments); `async move { }` /
+    `async { }` blocks and `async |..|` closures are NOT handled: their presence raises ExtractError (exit 2)."""
+    msk = mask(text)
+    m = re.search(r'\basync\s+(move\b|\{|\|)', msk)
+    if m:
+        raise ExtractError('R18: async block / async closure not supported: %r' % text[m.start():m.start() + 40])
+    hits = list(re.finditer(r'\.\s*await\b', msk))
+    if hits:
+        fired.append('R18 .await removed (%d suspension points dropped)' % len(hits))
+    for m in reversed(hits):
+        text = text[:m.start()] + _pad('', text[m.start():m.end()]) + text[m.end():]
+    return text
+
+
+def r18_sig(sig, fired):
+    """R18, signature part: the `async` qualifier is deleted (`pub async unsafe fn f` -> `pub unsafe fn f`); the declared
+    return type `T` of an async fn is the output of its future, which is what the sequential reading returns."""
+    msk = mask(sig)
+    m = re.search(r'\basync\s+(?=(?:unsafe\s+)?fn\b)', msk)
+    if not m:
+        raise ExtractError('R18 requested on a function that is not `async fn`: %r' % norm_ws(sig)[:80])
+    fired.append('R18 async fn -> fn')
+    return sig[:m.start()] + _pad('', sig[m.start():m.end()]) + sig[m.end():]
+
+
+class features:
+    """`with features({'async-io'}):` - evaluate #[cfg(feature = ..)] with these features ON in addition to the fixed
+    configuration, for one unit only (Unit.cfg_features); restored on exit, so no other unit changes behaviour."""
+
+    def __init__(self, extra):
+        self.extra = set(extra or ())
+
+    def __enter__(self):
+        self.saved = CFG['features']
+        CFG['features'] = set(self.saved) | self.extra
+        return self
+
+    def __exit__(self, *a):
+        CFG['features'] = self.saved
+        return False
+
+
 def rewrite_body(text, fired):
     text = r6_resolve_cfg(text, fired)
     text = r12_iter_flatten(text, fired)
